@@ -1040,10 +1040,10 @@ theorem maskLoop_ok (b total : Nat) (hb : 0 < b) (rem : List Bool) (pos : Nat)
     ∃ st, maskLoop b total (rem.length + 1) rem pos 0 [] [] = some st ∧
       st.rows ++ trueIdx st.pos st.rem = trueIdx pos rem ∧
       st.pos + st.rem.length ≤ total ∧ Trimmed st.rem ∧ st.rows.length ≤ b ∧
-      (rem ≠ [] → 0 < st.rows.length) := by
+      (rem ≠ [] → 0 < st.rows.length) ∧ (st.rows.length = b ∨ st.rem = []) := by
   cases hrem : rem with
   | nil =>
-    refine ⟨⟨[], [], pos⟩, ?_, by simp [trueIdx], by simpa [hrem] using hfit, by simp [Trimmed], by simp, by simp⟩
+    refine ⟨⟨[], [], pos⟩, ?_, by simp [trueIdx], by simpa [hrem] using hfit, by simp [Trimmed], by simp, by simp, Or.inr rfl⟩
     simp [maskLoop, filterRows]
   | cons x0 m0 =>
     rw [← hrem]
@@ -1091,7 +1091,12 @@ theorem maskLoop_ok (b total : Nat) (hb : 0 < b) (rem : List Bool) (pos : Nat)
       · left; omega
       · right; simp [t3]
     simp only [hstop, if_true]
-    refine ⟨_, rfl, ?_, ?_, ?_, ?_, ?_⟩
+    refine ⟨_, rfl, ?_, ?_, ?_, ?_, ?_, ?_⟩
+    rotate_right 1
+    · simp only [filterRows_range', trueIdx_length]
+      rcases t3 with t3 | t3
+      · exact Or.inl t3
+      · exact Or.inr t3
     · simp only [filterRows_range']
       rw [h1, trueIdx_rep_false_append]
       conv => rhs; rw [← t1]
@@ -1112,11 +1117,12 @@ theorem readAll_mask (b total : Nat) (hb : 0 < b) (fuel : Nat) (rem : List Bool)
     (hfit : pos + rem.length ≤ total) (htrim : Trimmed rem)
     (hfuel : (trueIdx pos rem).length < fuel) :
     ∃ bs, readAll b total fuel (.mask rem) pos = some bs ∧
-      bs.flatten = trueIdx pos rem ∧ ∀ x ∈ bs, 0 < x.length ∧ x.length ≤ b := by
+      bs.flatten = trueIdx pos rem ∧ (∀ x ∈ bs, 0 < x.length ∧ x.length ≤ b) ∧
+      ∀ x ∈ bs.dropLast, x.length = b := by
   induction fuel generalizing rem pos with
   | zero => omega
   | succ fuel ih =>
-    obtain ⟨st, h1, h2, h3, h4, h5, h6⟩ := maskLoop_ok b total hb rem pos hfit htrim
+    obtain ⟨st, h1, h2, h3, h4, h5, h6, h7⟩ := maskLoop_ok b total hb rem pos hfit htrim
     unfold readAll
     simp only [show b ≠ 0 by omega, if_false, h1]
     by_cases he : st.rows.isEmpty
@@ -1126,7 +1132,7 @@ theorem readAll_mask (b total : Nat) (hb : 0 < b) (fuel : Nat) (rem : List Bool)
         by_cases hr : rem = []
         · exact hr
         · have := h6 hr; rw [hX] at this; simp at this
-      refine ⟨[], rfl, ?_, by simp⟩
+      refine ⟨[], rfl, ?_, by simp, by simp⟩
       rw [hrem]; simp [trueIdx]
     · simp only [he, Bool.false_eq_true, if_false]
       have hx : 0 < st.rows.length := List.length_pos_iff.mpr (by simpa using he)
@@ -1134,13 +1140,28 @@ theorem readAll_mask (b total : Nat) (hb : 0 < b) (fuel : Nat) (rem : List Bool)
         have := congrArg List.length h2
         simp at this
         omega
-      obtain ⟨bs, hb1, hb2, hb3⟩ := ih st.rem st.pos h3 h4 hlen
-      refine ⟨st.rows :: bs, by simp [hb1], by simp [hb2, h2], ?_⟩
-      intro x hxm
-      simp at hxm
-      rcases hxm with rfl | hxm
-      · exact ⟨hx, h5⟩
-      · exact hb3 x hxm
+      obtain ⟨bs, hb1, hb2, hb3, hb4⟩ := ih st.rem st.pos h3 h4 hlen
+      refine ⟨st.rows :: bs, by simp [hb1], by simp [hb2, h2], ?_, ?_⟩
+      · intro x hxm
+        simp at hxm
+        rcases hxm with rfl | hxm
+        · exact ⟨hx, h5⟩
+        · exact hb3 x hxm
+      · cases hbs : bs with
+        | nil => simp
+        | cons y ys =>
+          rw [← hbs, List.dropLast_cons_of_ne_nil (by simp [hbs])]
+          intro x hxm
+          simp at hxm
+          rcases hxm with rfl | hxm
+          · rcases h7 with h7 | h7
+            · exact h7
+            · exfalso
+              rw [h7] at hb2
+              have := hb3 y (by simp [hbs])
+              rw [hbs] at hb2; simp [trueIdx] at hb2
+              have := hb2.1; simp [this] at *
+          · exact hb4 x hxm
 
 theorem trimMask_trimmed (m : List Bool) : Trimmed (trimMask m) := by
   induction m with
